@@ -13,6 +13,15 @@ import Driver.Util
       plugins : "-" | ;-separated  <outhex>|<file,file,...|->   file = <namehex>:<iphex>:<contenthex>
       output  : err <tag>  |  ok <abs-path-hex>=<contenthex>,...   (sorted by path)
 
+    file fields: `~` = the optional field is absent, `-` = present and empty, hex = present
+
+    gen <TAB> seq|par <TAB> cwdhex <TAB> req <TAB> plugins <TAB> fs     (whole pipeline, per plugin the
+      response as it is on the wire: binary handler + protoplugin normalisation + generator, then
+      validateResponses, checkRequiredFeatures, response writer)
+      req     : <o|->:<edition,..|->        what the image requires
+      plugins : ;-separated <outhex>|<files|->|<error>|<features>|<min>|<max>   (`~` = absent)
+      output  : err exec:<tag> | err exec-multi | err feature | as for resp with archives
+
     resp <TAB> cwdhex <TAB> plugins <TAB> fs         (sent when some out is a .jar / .zip archive)
       fs      : "-" | ;-separated <abs-path-hex>:<d|f>    what os.Stat says before the run
       output  : as above; an archive is  <abs-path-hex>=@<entryhex>~<contenthex>+...  (entries sorted)
@@ -47,13 +56,17 @@ def showReq (r : Request) : String :=
     ",".intercalate (r.protoFiles.map fun (f, g) => enc (l2s f.path) ++ (if g then "*" else ""))
   "g=" ++ encList r.toGenerate ++ "|p=" ++ pf ++ "|s=" ++ encList r.sourceFiles
 
+/-- an optional string field: `~` absent, `-` present and empty, hex otherwise -/
+def parseOptStr (s : String) : Option (Option Str) :=
+  if s = "~" then some none else (hexDecode s).map fun x => some (s2l x)
+
 def parseRFile (s : String) : Option RFile :=
   match s.splitOn ":" with
   | [n, ip, c] => do
-    let n ← hexDecode n
-    let ip ← hexDecode ip
-    let c ← hexDecode c
-    pure { name := s2l n, insertionPoint := s2l ip, content := s2l c }
+    let n ← parseOptStr n
+    let ip ← parseOptStr ip
+    let c ← parseOptStr c
+    pure { name := n, insertionPoint := ip, content := c }
   | _ => none
 
 def parsePlugin (s : String) : Option PluginResp :=
@@ -70,6 +83,43 @@ def insertSortedP (x : String × String) : List (String × String) → List (Str
 
 def sortPairs (l : List (String × String)) : List (String × String) :=
   l.foldl (fun acc x => insertSortedP x acc) []
+
+def showBuckets (bs : Buckets) : String :=
+  let showObj : Obj → String × String
+    | .file p c => (l2s p, enc c)
+    | .archive p es =>
+      let es := sortPairs (es.map fun (k, c) => (l2s k, c))
+      (l2s p, "@" ++ "+".intercalate (es.map fun (k, c) => enc k ++ "~" ++ enc c))
+  let objs := sortPairs ((flushedA bs).map showObj)
+  if objs.isEmpty then "ok -" else
+  "ok " ++ ",".intercalate (objs.map fun (p, c) => enc p ++ "=" ++ c)
+
+def parseNat? (s : String) : Option (Option Nat) :=
+  if s = "~" then some none else s.toNat?.map some
+
+def parseInt? (s : String) : Option (Option Int) :=
+  if s = "~" then some none else s.toInt?.map some
+
+/-- `<outhex>|<files>|<error>|<features>|<min>|<max>` -/
+def parseGenPlugin (s : String) : Option (Str × Resp) :=
+  match s.splitOn "|" with
+  | [o, fs, e, ft, mn, mx] => do
+    let o ← hexDecode o
+    let files ← (parseList fs ",").mapM parseRFile
+    let e ← parseOptStr e
+    let ft ← parseNat? ft
+    let mn ← parseInt? mn
+    let mx ← parseInt? mx
+    pure (s2l o, { files := files, error := e, features := ft, minEdition := mn, maxEdition := mx })
+  | _ => none
+
+/-- `<o|->:<edition,edition,...|->` -/
+def parseReq (s : String) : Option Required :=
+  match s.splitOn ":" with
+  | [o, es] => do
+    let es ← (parseList es ",").mapM fun x => x.toInt?
+    pure { optional := o = "o", editions := es }
+  | _ => none
 
 def handle : List String → String
   | ["req", cfg, files] =>
@@ -98,16 +148,19 @@ def handle : List String → String
     | some cwd, some ps, some fs =>
       match runResponsesA fs (s2l cwd) ps with
       | .error e => "err " ++ e.tag
-      | .ok bs =>
-        let showObj : Obj → String × String
-          | .file p c => (l2s p, enc c)
-          | .archive p es =>
-            let es := sortPairs (es.map fun (k, c) => (l2s k, c))
-            (l2s p, "@" ++ "+".intercalate (es.map fun (k, c) => enc k ++ "~" ++ enc c))
-        let objs := sortPairs ((flushedA bs).map showObj)
-        if objs.isEmpty then "ok -" else
-        "ok " ++ ",".intercalate (objs.map fun (p, c) => enc p ++ "=" ++ c)
+      | .ok bs => showBuckets bs
     | _, _, _ => "bad-op"
+  | ["gen", mode, cwd, req, plugins, fs] =>
+    let parseStat (s : String) : Option (Str × Bool) :=
+      match s.splitOn ":" with
+      | [p, k] => (hexDecode p).map fun p => (s2l p, k = "d")
+      | _ => none
+    match hexDecode cwd, parseReq req, (parseList plugins ";").mapM parseGenPlugin, (parseList fs ";").mapM parseStat with
+    | some cwd, some req, some rs, some fs =>
+      match runGenerate (mode = "par") req fs (s2l cwd) rs with
+      | .error e => "err " ++ e.tag
+      | .ok bs => showBuckets bs
+    | _, _, _, _ => "bad-op"
   | _ => "bad-op"
 
 def run : IO Unit := runLines handle
